@@ -22,7 +22,8 @@ KLASS_FIXCOPY = "does not compile"
 
 SMALL_PRIMES = [p for p in range(2, 2000) if all(p % q for q in range(2, int(p ** 0.5) + 1))]
 OTHER = [101, 103, 107, 109, 113, 127, 131, 137, 139, 149, 151, 157, 163, 167, 173, 179, 181, 191, 193, 197, 199, 211,
-         223, 227, 229, 233, 239, 241, 251, 257, 263, 269]          # harness: other_primes(n) = first n+2 (max 32)
+         223, 227, 229, 233, 239, 241, 251, 257, 263, 269,
+         271, 277, 281, 283, 293, 307, 311, 313, 317, 331, 337, 347, 349, 353, 359, 367, 373, 379, 383, 389, 397, 401, 409, 419, 421, 431, 433, 439, 443, 449, 457, 461, 463, 467, 479, 487, 491, 499, 503, 509]          # harness: other_primes(n) = first n+2 (max 72)
 
 INT_HISTS = ["fresh", "reuse", "copycold", "copywarm", "copy2", "copymod", "assigncold", "assignwarm", "assignsame", "assigncc"]
 DOM_HISTS = ["fresh", "reuse", "copycold", "copywarm", "copy2", "copymod", "assigncold", "assignwarm", "assignsame", "assigncc",
@@ -151,73 +152,91 @@ def read_source_facts(chk):
     if facts.get("cra_variant") is None:
         chk.broke("ChineseRemainder<Ring,Domain,true>::operator() no longer has a shape the model knows", str(facts.get("cra_calls")))
         facts["cra_variant"] = "fixed"
-    # 3. how the constructors initialise the lazy caches (C14_*_history_independent assume: empty _ck, _prod = one;
-    #    C14_int_ctor_presized_refuted: a constructor that sizes _ck does not have the property)
+    # 3. where the caches _ck / _prod are filled and read: every constructor, setPrimes, the accessors, the guards of ComputeCk /
+    #    ComputeProd (C14_*_history_independent rest on: constructors with primes and setPrimes compute the caches starting from an
+    #    EMPTY _ck and _prod = one, accessors only read, the copy constructors copy them; C14_int_ctor_presized_refuted: a
+    #    constructor that sizes _ck before ComputeCk() runs does not have the property)
     def strip(txt):
         txt = re.sub(r"#if 0.*?#endif", "", txt, flags=re.S)
         txt = re.sub(r"/\*.*?\*/", "", txt, flags=re.S)
         return re.sub(r"//.*", "", txt)
 
-    def ck_init(inits, need_prod):
-        """'empty' | 'sized' | None from a constructor's member initialiser list"""
-        flat = "".join(inits.split())
-        if need_prod and "_prod(one)" not in flat:
+    def body_at(txt, pos):
+        """statements (whitespace removed, split at ';') of the brace block starting at txt[pos] == '{'"""
+        depth, k = 0, pos
+        while k < len(txt):
+            if txt[k] == "{":
+                depth += 1
+            elif txt[k] == "}":
+                depth -= 1
+                if depth == 0:
+                    break
+            k += 1
+        return [x for x in ("".join(y.split()) for y in txt[pos + 1:k].split(";")) if x and not x.startswith("GIVARO_ASSERT")]
+
+    def fn(txt, pat):
+        """(groups, member initialiser list with whitespace removed, body statements) of the first definition matching pat, else None"""
+        m = re.search(pat + r"\s*(?::\s*([^{;]*))?\{", txt)
+        if not m:
             return None
-        mm = re.search(r"_ck\(([^)]*)\)", flat)
+        return m.groups()[:-1], "".join((m.groups()[-1] or "").split()), body_at(txt, m.end() - 1)
+
+    def ck_init(inits):
+        mm = re.search(r"_ck\(([^)]*)\)", inits)
         if not mm or mm.group(1) in ("", "0"):
             return "empty"
-        if re.fullmatch(r"\w+\.size\(\)", mm.group(1)):
-            return "sized"
-        return None
+        return "sized" if re.fullmatch(r"\w+\.size\(\)", mm.group(1)) else None
+    GUARD = "if(_ck.size()!=0)return"
+    ic, why = {}, []
     try:
         hdr = strip(open(os.path.join(vf.REPO, "src/kernel/integer/givintrns.h")).read())
         inl = strip(open(os.path.join(vf.REPO, "src/kernel/integer/givintrns_cstor.inl")).read())
-        pats = {"default": (hdr + inl, r"IntRNSsystem\s*\(\s*\)\s*:\s*([^{;]*)\{"),
-                "array": (inl, r"IntRNSsystem\s*\(\s*const\s+array\s*&\s*\w+\s*\)\s*:\s*([^{;]*)\{"),
-                "templated": (inl, r"IntRNSsystem\s*\(\s*const\s+Container\s*<\s*TT\s*,\s*Alloc\s*<\s*TT\s*>\s*>\s*&\s*\w+\s*\)\s*:\s*([^{;]*)\{")}
-        ctor = {}
-        for name, (txt, pat) in pats.items():
-            m = re.search(pat, txt)
-            ctor[name] = ck_init(m.group(1), True) if m else None
-        facts["int_ctor_ck"] = ctor
-        guard = re.search(r"ComputeCk\s*\(\s*\)\s*\{\s*if\s*\(\s*_ck\.size\(\)\s*!=\s*0\s*\)\s*return\s*;", inl)
-        facts["int_ComputeCk_guard"] = bool(guard)
-    except OSError:
-        facts["int_ctor_ck"] = {}
-    ic = facts.get("int_ctor_ck", {})
-    if ic.get("default") != "empty" or ic.get("array") != "empty" or ic.get("templated") not in ("empty", "sized") or not facts.get("int_ComputeCk_guard"):
-        chk.broke("IntRNSsystem constructors / ComputeCk no longer initialise and test the lazy caches in a shape the object model knows "
-                  "(expected: _prod(one) and an empty _ck in every constructor, `if (_ck.size() != 0) return;` in ComputeCk)", str(ic))
+        d = fn(hdr + inl, r"IntRNSsystem\s*\(\s*\)")
+        ic["default"] = ck_init(d[1]) if d and "_prod(one)" in d[1] and d[2] == [] else None
+        a = fn(inl, r"IntRNSsystem\s*\(\s*const\s+array\s*&\s*(\w+)\s*\)")
+        ic["array"] = ck_init(a[1]) if a and "_prod(one)" in a[1] and ("_primes(%s)" % a[0][0]) in a[1] and a[2] == ["ComputeProd()", "ComputeCk()"] else None
+        t = fn(inl, r"IntRNSsystem\s*\(\s*const\s+Container\s*<\s*TT\s*,\s*Alloc\s*<\s*TT\s*>\s*>\s*&\s*(\w+)\s*\)")
+        ic["templated"] = ck_init(t[1]) if t and "_prod(one)" in t[1] and t[2][-2:] == ["ComputeProd()", "ComputeCk()"] else None
+        facts["int_templated_ctor"] = (t[1] + " { " + "; ".join(t[2]) + " }") if t else None
+        g = fn(inl, r"::\s*ComputeCk\s*\(\s*\)")
+        ic["ComputeCk_guard"] = bool(g and g[2][:1] == [GUARD])
+        g = fn(inl, r"::\s*ComputeProd\s*\(\s*\)")
+        ic["ComputeProd_guard"] = bool(g and g[2][:1] and g[2][0].startswith("if(isOne(_prod))"))
+        for name, want in (("product", ["return_prod"]), ("Reciprocals", ["return_ck"]), ("reciprocal", ["return_ck[i]"])):
+            g = fn(inl, r"::\s*%s\s*\(\s*(?:const\s+size_t\s+i)?\s*\)\s*const" % name)
+            ic[name] = "reads" if g and g[2] == want else None
+    except OSError as ex:
+        why.append(str(ex))
+    facts["int_ctor_ck"] = ic
+    if not (ic.get("default") == "empty" and ic.get("array") == "empty" and ic.get("templated") in ("empty", "sized") and ic.get("ComputeCk_guard")
+            and ic.get("ComputeProd_guard") and ic.get("product") == ic.get("Reciprocals") == ic.get("reciprocal") == "reads"):
+        chk.broke("IntRNSsystem: constructors / ComputeCk / ComputeProd / accessors no longer fill and read the caches in the shape the object model "
+                  "(int_mk, int_mk_tt, int_default, int_ensure_ck, int_ensure_prod, int_product, int_Reciprocals) was written after", str(ic) + " ".join(why))
     facts["ttck"] = ic.get("templated") if ic.get("templated") in ("empty", "sized") else "empty"
+    rc, why = {}, []
     try:
         inl = strip(open(os.path.join(vf.REPO, "src/kernel/field/givrnscstor.inl")).read())
-        rc = {}
-        m = re.search(r"RNSsystem\s*\(\s*\)\s*:\s*([^{;]*)\{", inl)
-        rc["default"] = ck_init(m.group(1), False) if m else None
-        m = re.search(r"RNSsystem\s*\(\s*const\s+domains\s*&\s*\w+\s*\)\s*:\s*([^{;]*)\{", inl)
-        rc["domains"] = ck_init(m.group(1), False) if m else None
-        m = re.search(r"RNSsystem\s*\(\s*const\s+Self_t\s*&\s*(\w+)\s*\)\s*:\s*([^{;]*)\{", inl)
-        if m:
-            flat = "".join(m.group(2).split())
-            R = m.group(1)
-            rc["copy"] = "ck" if ("_ck(%s._ck,givWithCopy())" % R) in flat and ("_primes(%s._primes,givWithCopy())" % R) in flat else None
-        else:
-            rc["copy"] = None
-        m = re.search(r"setPrimes\s*\(\s*const\s+domains\s*&\s*(\w+)\s*\)\s*\{(.*?)\}", inl, flags=re.S)
-        if m:
-            stmts = ["".join(x.split()) for x in m.group(2).split(";") if x.strip()]
-            rc["setPrimes"] = "reset" if stmts == ["_primes.allocate(0)", "_primes.copy(%s)" % m.group(1), "_ck.resize(0)"] else None
-            facts["rns_setPrimes_body"] = stmts
-        else:
-            rc["setPrimes"] = None
-        rc["ComputeCk_guard"] = bool(re.search(r"ComputeCk\s*\(\s*\)\s*\{\s*if\s*\(\s*_ck\.size\(\)\s*!=\s*0\s*\)\s*return\s*;", inl))
-        facts["rns_ctor_ck"] = rc
-    except OSError:
-        facts["rns_ctor_ck"] = {}
-    rc = facts.get("rns_ctor_ck", {})
-    if not (rc.get("default") == "empty" and rc.get("domains") == "empty" and rc.get("copy") == "ck" and rc.get("setPrimes") == "reset" and rc.get("ComputeCk_guard")):
-        chk.broke("RNSsystem constructors / setPrimes / ComputeCk no longer handle the reciprocal cache in the shape the object model "
-                  "(dom_mk, dom_copy, dom_setPrimes, dom_ensure_ck) was written after", str(rc))
+        d = fn(inl, r"RNSsystem\s*\(\s*\)")
+        rc["default"] = ck_init(d[1]) if d and d[2] == [] else None
+        a = fn(inl, r"RNSsystem\s*\(\s*const\s+domains\s*&\s*(\w+)\s*\)")
+        rc["domains"] = ck_init(a[1]) if a and ("_primes(%s,givWithCopy())" % a[0][0]) in a[1] and a[2] == ["ComputeCk()"] else None
+        c = fn(inl, r"RNSsystem\s*\(\s*const\s+Self_t\s*&\s*(\w+)\s*\)")
+        rc["copy"] = "ck" if c and ("_ck(%s._ck,givWithCopy())" % c[0][0]) in c[1] and ("_primes(%s._primes,givWithCopy())" % c[0][0]) in c[1] and c[2] == [] else None
+        sp = fn(inl, r"::\s*setPrimes\s*\(\s*const\s+domains\s*&\s*(\w+)\s*\)")
+        rc["setPrimes"] = "recompute" if sp and sp[2] == ["_primes.allocate(0)", "_primes.copy(%s)" % sp[0][0], "_ck.resize(0)", "ComputeCk()"] else None
+        facts["rns_setPrimes_body"] = sp[2] if sp else None
+        g = fn(inl, r"::\s*ComputeCk\s*\(\s*\)")
+        rc["ComputeCk_guard"] = bool(g and g[2][:1] == [GUARD])
+        for name, want in (("Reciprocals", ["return_ck"]), ("reciprocal", ["return_ck[i]"])):
+            g = fn(inl, r"::\s*%s\s*\(\s*(?:const\s+size_t\s+i)?\s*\)\s*const" % name)
+            rc[name] = "reads" if g and g[2] == want else None
+    except OSError as ex:
+        why.append(str(ex))
+    facts["rns_ctor_ck"] = rc
+    if not (rc.get("default") == "empty" and rc.get("domains") == "empty" and rc.get("copy") == "ck" and rc.get("setPrimes") == "recompute"
+            and rc.get("ComputeCk_guard") and rc.get("Reciprocals") == rc.get("reciprocal") == "reads"):
+        chk.broke("RNSsystem: constructors / setPrimes / ComputeCk / accessors no longer fill and read the reciprocal cache in the shape the object model "
+                  "(dom_mk, dom_default, dom_copy, dom_setPrimes, dom_ensure_ck, dom_Reciprocals) was written after", str(rc) + " ".join(why))
     return facts
 
 
@@ -516,7 +535,7 @@ def main(tier, replay=None):
     cases = []   # dicts: kind, impl line, model line, meta
 
     def other(n, hist):
-        return OTHER[:min(n if hist in SAME_LEN_HISTS else n + 2, 32)]    # harness: other_primes()
+        return OTHER[:min(n if hist in SAME_LEN_HISTS else n + 2, 72)]    # harness: other_primes()
 
     def add_sys(kind, hist, sub, ps, rs, al, ctor="Integer", order="mix", grid=False):
         n = len(ps)
